@@ -36,6 +36,8 @@ import importlib
 import itertools
 import json
 import os
+import sys
+import time
 import warnings
 
 import numpy as np
@@ -54,6 +56,7 @@ from lerax.space import Box, Discrete  # noqa: E402
 from mc.core import Ctx, HarnessError, key_ints, lib_frame  # noqa: E402
 
 LEVEL = "exploration"
+_T0 = time.time()
 P = "C02"
 
 # ---------------------------------------------------------------------------------------------
@@ -446,7 +449,7 @@ def judge_batch(what, name, cfg, stack, env, o0, outs, idx_of_row, descr_of_row,
             return f"value {x.tolist()} declared Discrete({decl['n']})"
         lo, hi = decl["low"].astype(np.float64).reshape(-1), decl["high"].astype(np.float64).reshape(-1)
         bad = np.flatnonzero(np.isnan(x) | (x < lo) | (x > hi))[:4]
-        return "; ".join(f"[{int(i)}]={x[i]!r} declared [{lo[i]!r}, {hi[i]!r}]" for i in bad)
+        return "; ".join(f"[{int(i)}]={float(x[i])!r} declared [{float(lo[i])!r}, {float(hi[i])!r}]" for i in bad)
 
     members(o0, odecl, 1, "reset-obs", show_box)
     members(obs, odecl, 2, "obs", show_box)
@@ -460,7 +463,7 @@ def judge_batch(what, name, cfg, stack, env, o0, outs, idx_of_row, descr_of_row,
             mask = ~np.isfinite(arr.astype(np.float64))[:, :n_rows]
             for b in np.flatnonzero(mask.any(axis=0))[:MAX_FAILS_PER_SIG]:
                 t = int(np.flatnonzero(mask[:, b])[0])
-                add(int(b), f"{P}/reward/non-finite/{tag}", f"reward at step {t + 1} is {arr[t, b]!r}")
+                add(int(b), f"{P}/reward/non-finite/{tag}", f"reward at step {t + 1} is {float(arr[t, b])!r}")
 
     # vacuity counters (real rows only)
     real = slice(0, n_rows)
@@ -473,6 +476,7 @@ def judge_batch(what, name, cfg, stack, env, o0, outs, idx_of_row, descr_of_row,
         ctx.guard("obs-components-exactly-on-a-finite-bound", int(touch.sum()))
         ctx.guard("obs-components-with-finite-bounds-checked", int((fin_lo | fin_hi).sum()) * d * n_rows)
     ctx.guard("observations-judged", (d + 1) * n_rows)
+    ctx.guard(f"judged:{name}", n_rows)
     ctx.guard("sampled-actions-judged", d * n_rows)
     if adecl["kind"] == "box" and act.shape[2:] == adecl["low"].shape:
         ctx.guard("sampled-actions-stepped", int((np.abs(act[:, real] - smp[:, real]).reshape(d, n_rows, -1).max(axis=2) == 0).sum()))
@@ -655,9 +659,12 @@ def purity_rows(name, keys, depth):
     return [(int(k), w) for k in keys for w in words]
 
 
-def batch_digests(env, name, keys, depth) -> dict:
+def batch_digests(env, name, keys, depth, max_rows=None) -> dict:
     adecl = declared(env.action_space)
     rows = purity_rows(name, keys, depth)
+    if max_rows:  # a fixed stride over the enumerated tree (all keys stay represented); same compiled batch function
+        stride = -(-len(rows) // int(max_rows))
+        rows = rows[::stride]
     o0, outs, _ = run_tree_rows(env, name, [r[0] for r in rows], [encode_word(r[1], adecl) for r in rows])
     arrays = dict(zip(("reset_obs", "obs", "reward", "terminal", "truncate", "sample", "action"), [o0] + list(outs)))
     return {k: hashlib.sha1(str(v.dtype).encode() + str(v.shape).encode() + np.ascontiguousarray(v).tobytes()).hexdigest() for k, v in arrays.items()}
@@ -683,15 +690,16 @@ def _child_init():
 
 def _child_digest(case):
     env = build_env(case["env"], case["cfg"], case["stack"])
-    return batch_digests(env, case["env"], case["keys"], int(case["depth"]))
+    return batch_digests(env, case["env"], case["keys"], int(case["depth"]), case.get("max_rows"))
 
 
-def digests_in_fresh_process(case) -> dict:
+def start_fresh_process(case):
+    """Spawn a fresh interpreter that computes the digests of the same batch; returns (executor, future)."""
     import concurrent.futures as cf
     import multiprocessing as mp
 
-    with cf.ProcessPoolExecutor(1, mp_context=mp.get_context("spawn"), initializer=_child_init) as ex:
-        return ex.submit(_child_digest, {k: case[k] for k in ("env", "cfg", "stack", "keys", "depth")}).result(timeout=1800)
+    ex = cf.ProcessPoolExecutor(1, mp_context=mp.get_context("spawn"), initializer=_child_init)
+    return ex, ex.submit(_child_digest, {k: case.get(k) for k in ("env", "cfg", "stack", "keys", "depth", "max_rows")})
 
 
 _TRACED_OTHER: dict = {}
@@ -722,29 +730,42 @@ def clause_purity(cases, ctx: Ctx):
         name, cfg, stack = c["env"], c["cfg"], c["stack"]
         tag = f"{name}/{stack_tag(stack)}"
         pre = f"{name} cfg={cfg_tag(cfg)} stack={stack_tag(stack)} keys={c['keys']} depth={c['depth']}"
+        # "child": False - no second process; "overlap" - the second process runs while this one re-runs
+        # (scheduling only); anything else - the second process runs afterwards
+        mode = c.get("child", True)
+        child = start_fresh_process(c) if mode == "overlap" else None
         try:
-            a = batch_digests(env_for(name, cfg, stack), name, c["keys"], int(c["depth"]))
-            disturb(name, cfg)
-            jax.clear_caches()
-            eqx.clear_caches()
-            b = batch_digests(build_env(name, cfg, stack), name, c["keys"], int(c["depth"]))
-        except HarnessError:
-            raise
-        except Exception as e:
-            cs = crash_sig(e, "purity", name, stack)
-            if cs is None:
+            try:
+                a = batch_digests(env_for(name, cfg, stack), name, c["keys"], int(c["depth"]), c.get("max_rows"))
+                disturb(name, cfg)
+                jax.clear_caches()
+                eqx.clear_caches()
+                b = batch_digests(build_env(name, cfg, stack), name, c["keys"], int(c["depth"]), c.get("max_rows"))
+            except HarnessError:
                 raise
-            out.append((i, cs[0], f"{pre}: {cs[1]}"))
-            continue
-        diff = sorted(k for k in a if a[k] != b[k])
-        if diff:
-            out.append((i, f"{P}/purity/second-run-in-process-differs/{tag}", f"{pre}: outputs {diff} differ between two runs of the same batch in one process (freshly constructed environment, caches dropped, unrelated environment stepped in between)"))
-        if c.get("child", True):
-            cdig = digests_in_fresh_process(c)
-            diff = sorted(k for k in a if a[k] != cdig[k])
+            except Exception as e:
+                cs = crash_sig(e, "purity", name, stack)
+                if cs is None:
+                    raise
+                out.append((i, cs[0], f"{pre}: {cs[1]}"))
+                continue
+            diff = sorted(k for k in a if a[k] != b[k])
             if diff:
-                out.append((i, f"{P}/purity/second-process-differs/{tag}", f"{pre}: outputs {diff} differ between this process and a freshly spawned one"))
-            ctx.guard("purity-batches-compared-across-processes")
+                out.append((i, f"{P}/purity/second-run-in-process-differs/{tag}", f"{pre}: outputs {diff} differ between two runs of the same batch in one process (freshly constructed environment, caches dropped, unrelated environment stepped in between)"))
+            if mode:
+                if child is None:
+                    child = start_fresh_process(c)
+                try:
+                    cdig = child[1].result(timeout=1800)
+                except Exception as e:
+                    raise HarnessError(f"purity: the spawned process failed for {pre}: {type(e).__name__}: {e}")
+                diff = sorted(k for k in a if a[k] != cdig[k])
+                if diff:
+                    out.append((i, f"{P}/purity/second-process-differs/{tag}", f"{pre}: outputs {diff} differ between this process and a freshly spawned one"))
+                ctx.guard("purity-batches-compared-across-processes")
+        finally:
+            if child is not None:
+                child[0].shutdown(wait=False, cancel_futures=True)
         ctx.guard("purity-batches-rerun-in-process")
     return out
 
@@ -756,7 +777,11 @@ def clause_mix(cases, ctx: Ctx):
     for kind, fn in (("tree", clause_tree), ("long", clause_long), ("typing", clause_typing), ("purity", clause_purity)):
         idxs = [i for i, c in enumerate(cases) if c["kind"] == kind]
         if idxs:
+            t0 = time.time()
             out += [(idxs[j], s, m) for (j, s, m) in fn([cases[i] for i in idxs], ctx)]
+            if os.environ.get("C02_TIMING"):
+                envs = sorted({cases[i]["env"] for i in idxs})
+                print(f"[C02 timing pid={os.getpid()}] {kind:<7} {','.join(envs)}: {len(idxs)} cases {time.time() - t0:.1f}s (t={time.time() - _T0:.0f}s)", file=sys.stderr, flush=True)
     return out
 
 
@@ -798,7 +823,7 @@ def explore(ctx: Ctx):
             cases.append(dict(kind="typing", env=name, cfg=cfg, stack=stack))
 
     def add_purity(name, stack, depth, child):
-        cases.append(dict(kind="purity", env=name, cfg={}, stack=stack, keys=[int(k) for k in K[:2]], depth=depth, child=bool(child)))
+        cases.append(dict(kind="purity", env=name, cfg={}, stack=stack, keys=[int(k) for k in K[:2]], depth=depth, child=child, max_rows=BLOCK[FAMILY[name]]))
 
     for name, (_, _, fam) in ENVS.items():
         if only and name not in only:
@@ -809,7 +834,7 @@ def explore(ctx: Ctx):
         if fam == "classic":
             d_main = (8 if disc else 6) if thorough else (6 if disc else 4)
             d_side = (6 if disc else 4) if thorough else (4 if disc else 3)
-            k_main, k_side = (8, 4) if thorough else (4, 2)
+            k_main, k_side = ((8 if disc else 4), 4) if thorough else (4, 2)
             add_tree(name, {}, [], k_main, d_main)
             for cfg in cfgs:
                 add_tree(name, cfg, [], k_side, d_side)
@@ -831,7 +856,7 @@ def explore(ctx: Ctx):
             if thorough:
                 add_purity(name, all_in_one, d_side, True)
         elif fam == "mujoco":
-            add_tree(name, {}, [], 2, 5 if thorough else 3)
+            add_tree(name, {}, [], 2, 4 if thorough else 3)
             add_tree(name, {}, all_in_one, 2, 3)
             if thorough:
                 for cfg in cfgs:
@@ -844,17 +869,18 @@ def explore(ctx: Ctx):
             if thorough:
                 for stack in applicable_stacks(name, "each+"):
                     add_typing(name, {}, stack)
-            add_purity(name, [], 5 if thorough else 3, thorough or name in MUJOCO_REPRESENTATIVES[:3])
+            add_purity(name, [], 4 if thorough else 3, True if thorough else ("overlap" if name in MUJOCO_REPRESENTATIVES[:3] else False))
         else:  # g1
-            add_tree(name, {}, [], 2, 4 if thorough else 2)
+            add_tree(name, {}, [], 2, 3 if thorough else 2)
             if thorough:
                 for cfg in cfgs:
                     add_tree(name, cfg, [], 2, 2)
                 add_tree(name, {}, all_in_one, 2, 2)
             for cfg in cfgs:
                 add_typing(name, cfg, [])
-            add_typing(name, {}, all_in_one)
-            add_purity(name, [], 4 if thorough else 2, thorough or name == "G1Standing")
+            if thorough:
+                add_typing(name, {}, all_in_one)
+            add_purity(name, [], 3 if thorough else 2, True if thorough else ("overlap" if name == "G1Standing" else False))
     # the default-argument rescaling wrappers over a box with an unbounded component
     if not only or "CartPole" in only:
         add_tree("CartPole", {}, S_RO_DEFAULT, 2, 2)
@@ -879,7 +905,7 @@ def explore(ctx: Ctx):
     ctx.assumptions = [
         "keys limited to the alphabet K derived from VERIF_SEED (step keys and action-sample keys are fold_in children of the reset key)",
         "actions limited to the corner alphabet; corners of unbounded action dimensions (ClipAction declares Box(-inf, inf)) are represented by -+1e6",
-        "MuJoCo / G1 horizons are d steps from a reset (quick 3 / 2, thorough 5 / 4); nothing is claimed about longer physics roll-outs",
+        "MuJoCo / G1 horizons are d steps from a reset (quick 3 / 2, thorough 4 / 3); nothing is claimed about longer physics roll-outs",
         "shape and dtype are decided by abstract evaluation for all states; bounds / NaN / finiteness only on the enumerated histories",
         "float32 (jax default), CPU backend; membership is exact (no tolerance): observation and bounds are compared after exact widening to float64",
         "bitwise comparison across processes assumes identical XLA flags (inherited) on the same machine",
@@ -898,8 +924,11 @@ def explore(ctx: Ctx):
     else:
         gk = lambda c: ride.get(c["env"], c["env"])  # noqa: E731
     ctx.run_parallel("mix", cases, workers=6, group_key=gk, threads=2)
+    if only:
+        return  # development runs on a subset: vacuity guards are for the full enumeration
     ctx.require(
         "steps-terminal", "steps-truncated", "obs-components-exactly-on-a-finite-bound", "observations-judged",
         "sampled-actions-judged", "sampled-actions-stepped", "configurations-typed-abstractly",
         "purity-batches-rerun-in-process", "purity-batches-compared-across-processes",
+        *[f"judged:{name}" for name in ENVS],
     )
